@@ -80,8 +80,14 @@ def generate(rng, tier, i):
             if trig:
                 m['on_tx'] = trig
             scn['msgs'].append(m)
+    # the application submits the next message from inside the end-of-message-acknowledge callback of an earlier one
+    scn['msgs_plain'] = [dict(m) for m in scn['msgs']]
+    if not saturate:
+        for idx, m in enumerate(scn['msgs_plain']):
+            if m['pf'] < 240 and m['ps'] != 255 and rng.random() < 0.15:
+                scn['msgs'].append(dict(m, fill=rng.randrange(1 << 16), len=gen.len22(rng, 1500), pf=rng.choice([m['pf'], 0xD4]), on_ack_of=idx, at_us=0))
     if not saturate and rng.random() < 0.35:
-        for m in rng.sample(scn['msgs'], min(len(scn['msgs']), rng.randint(1, 3))):
+        for m in rng.sample([x for x in scn['msgs'] if x.get('on_ack_of') is None], min(len([x for x in scn['msgs'] if x.get('on_ack_of') is None]), rng.randint(1, 3))):
             if m is not scn['msgs'][0]:
                 m['on_tx'] = rng.choice([1, 2, 3, 4, 5, 6, 8, 10, rng.randrange(1, 40), 'eoms', 'eoms', 'last_dt'])
     return scn
@@ -100,7 +106,7 @@ def execute(scn, keep_log=False, hook=None):
     bus = w.bus
     exp, extra, meta = common.Counter(), common.Counter(), {}
     viol = []
-    stats = {'cmdt_msgs': 0, 'bam_msgs': 0, 'refused_at_capacity': 0, 'len_mod60_zero': 0, 'reentrant_submissions': 0,
+    stats = {'cmdt_msgs': 0, 'bam_msgs': 0, 'refused_at_capacity': 0, 'len_mod60_zero': 0, 'reentrant_submissions': 0, 'submitted_from_ack_callback': 0,
              'bidirectional_runs': int(len({m['stack'] for m in scn['msgs']}) > 1)}
     states = set()
     t0 = sim.now
@@ -202,8 +208,21 @@ def execute(scn, keep_log=False, hook=None):
                 finally:
                     nest[0] -= 1
     bus.post_hooks.append(on_tx)
+    pending_on_ack = [m for m in scn['msgs'] if m.get('on_ack_of') is not None]
+
+    def on_delivery(stack, lid, pgn, sa, d):
+        # the originator's CA listener sees the 12-byte FD.TP.CM end-of-message acknowledge of message i
+        if not d or len(d) != 12 or (d[0] & 0xF) != rc.FD_EOMA or not lid.startswith('ca'):
+            return
+        for m in list(pending_on_ack):
+            src = scn['msgs_plain'][m['on_ack_of']]
+            if stack == src['stack'] and lid == 'ca%d' % src['ca'] and sa == src['ps'] and pgn == rc.sae_pgn(src['dp'], src['pf'], src['ps']) and rc.le24(d, 1) == src['len']:
+                pending_on_ack.remove(m)
+                stats['submitted_from_ack_callback'] += 1
+                submit(m)
+    w.delivery_hooks.append(on_delivery)
     for m in scn['msgs']:
-        if m.get('on_tx') is None:
+        if m.get('on_tx') is None and m.get('on_ack_of') is None:
             sim.at(base + m['at_us'] * 1000, (lambda m=m: submit(m)), 'op')
     if hook:
         hook(w)
